@@ -619,8 +619,28 @@ impl Writer {
         // the current one may be among the merged files.
         self.new_active_datafile(self.next_fileid)?;
 
-        // Remove stale files from system and storage statistics
+        // With the "always" strategy nothing that the index points to may be lost, so every file
+        // that stays has to be durable before files are removed. Appends are synced as they
+        // happen and so are the merge files of this pass, but a merge file left by a pass that
+        // was given up, by this process or before a restart, never was, although entries may
+        // have moved into it from the files that are removed now.
         let path = self.ctx.conf.path.as_path();
+        if let SyncStrategy::Always = self.ctx.conf.sync {
+            for id in utils::sorted_fileids(path)?.filter(|id| !fileids_to_merge.contains(id)) {
+                for name in [
+                    utils::datafile_name(path, id),
+                    utils::hintfile_name(path, id),
+                ] {
+                    match fs::File::open(name) {
+                        Ok(file) => file.sync_all()?,
+                        Err(e) if e.kind() == io::ErrorKind::NotFound => {}
+                        Err(e) => return Err(e.into()),
+                    }
+                }
+            }
+        }
+
+        // Remove stale files from system and storage statistics
         for id in &fileids_to_merge {
             if let Err(e) = fs::remove_file(utils::hintfile_name(path, *id)) {
                 if e.kind() != io::ErrorKind::NotFound {
